@@ -246,6 +246,15 @@ func ruleEmitterSiblings(c *core.Ctx) {
 				return true
 			})
 		}
+		// where the binary-expression case can be evaluated over the finite domain, "handled" means: it prints a token
+		// for the operator and does not abort (lookup tables, helpers and index arithmetic included)
+		sortedOps := append([]string(nil), binOps...)
+		sort.Strings(sortedOps)
+		if dec, _ := tokenDecisions(c, info, d, sortedOps); dec != nil {
+			for _, op := range binOps {
+				used[op] = dec[op]["int"] != "" && dec[op]["int"] != "<panic>" && dec[op]["other"] != "" && dec[op]["other"] != "<panic>"
+			}
+		}
 		for _, op := range binOps {
 			c.Check(used[op], rule, em.name+"/operator "+op, d.Pos(), "handled", "binary operator "+op+" is not handled by the "+em.name+" emitter")
 		}
@@ -478,6 +487,25 @@ func ruleOperatorTokens(c *core.Ctx) {
 			}
 			if got[op] != nil && got[op]["int"] == got[op]["other"] {
 				got[op]["any"] = got[op]["int"]
+			}
+		}
+		// second engine: the binary-expression case evaluated over the finite domain (operator x integer/other result
+		// type). It sees through lookup tables, helper functions, closures and loops over literal tables, which the
+		// row extraction above does not; where it can decide, its answer is taken.
+		if _, ed, ep := c.Func(em.pkg, em.fn); ed != nil {
+			dec, why := tokenDecisions(c, ep.TypesInfo, ed, binOps)
+			if dec == nil {
+				c.Tables["X4_engine/"+em.name] = "row extraction (finite-domain evaluation undecided: " + why + ")"
+			} else {
+				c.Tables["X4_engine/"+em.name] = "finite-domain evaluation"
+			}
+			if dec != nil {
+				for op, m := range dec {
+					got[op] = map[string]string{"int": m["int"], "other": m["other"]}
+					if m["int"] == m["other"] {
+						got[op]["any"] = m["int"]
+					}
+				}
 			}
 		}
 		recordIntDiv := func() {
